@@ -81,6 +81,9 @@ func (root *Root) ResolveExecutable(
 			return nil, fmt.Errorf("%w, could not determine operation to evaluate", ErrResolve)
 		}
 	}
+	if root.schema == nil {
+		return nil, fmt.Errorf("%w, a schema has not been loaded", ErrResolve)
+	}
 	field := Field{Alias: "data", Name: string(op.Type), SelBase: SelBase{Sels: op.Sels}}
 
 	var opVars map[string]interface{}
